@@ -1,12 +1,19 @@
 """C20 - real-time pacing never runs ahead of the wall clock and alters no result (DESIGN.md C20)."""
 from ..core import digest_of, san
-from ..kprog import Prof, gen_program, setup_world, excerpt
+from ..kprog import Prof, gen_program, setup_world, excerpt, HarnessAbort
 from ..tap import TapEnvironment, TapRealtimeEnvironment, EmptySchedule, StopSimulation
 from . import c03
 import onl.sim.rt as rt_mod
 
 ID = 'C20'
 SHRINK_KEEP = ('factor', 'strict', 't0', 'tick')
+
+
+def _valid_drive(rt):
+    for it in rt.get('drive') or []:
+        if not it or it[0] not in ('until', 'burn', 'steps', 'run') or (it[0] != 'run' and (len(it) < 2 or it[1] < 0)):
+            return False
+    return True
 TIERS = {'quick': {'runs': 12000, 'budget_s': 30}, 'thorough': {'runs': 800000, 'budget_s': 600}}
 RULE = ('generated kernel programs executed on Environment (reference) and on RealtimeEnvironment(initial_time, factor, strict) '
         'under a virtual wall clock replacing onl.sim.rt.monotonic/sleep: process bodies burn wall time, sleep returns early / '
@@ -19,7 +26,7 @@ ASSUMPTIONS = ['with a ticking monotonic() the strict error is required only if 
                'than `factor` past the due instant, and forbidden only if the first clock value read inside step() is within '
                '`factor`; in between either behaviour is accepted', 'early sleeps still make progress (a sleep never returns '
                'without advancing the clock)']
-PROBES = ['burn', 'sleep_early', 'sleep_late', 'tick', 'sync', 'strict_error_expected', 'lag_exactly_factor', 'pre_burn',
+PROBES = ['driven_by_run_until', 'burn_between_calls', 'burn', 'sleep_early', 'sleep_late', 'tick', 'sync', 'strict_error_expected', 'lag_exactly_factor', 'pre_burn',
           'nonstrict_late', 'initial_time_nonzero']
 
 
@@ -92,12 +99,26 @@ def gen(rng, tier):
     case['rt'] = {'factor': factor, 'strict': rng.random() < 0.6, 'tick': rng.choice([0, 0, 0, 0.001, 0.125]),
                   'mults': [rng.choice([1.0, 1.0, 0.5, 1.5, 0.25]) for _ in range(6)],
                   'pre_burn': rng.choice([0, 0, 0, 0.5, 1.0, 3.0]), 'pre_sync': rng.random() < 0.3}
+    # how the run is driven: step() by the harness, or several run(until=t) calls with wall time passing in between
+    drive = []
+    if rng.random() < 0.5:
+        t = case['t0']
+        for _ in range(rng.randint(1, 4)):
+            r = rng.random()
+            if r < 0.5:
+                t = t + rng.choice([0.5, 1, 1, 2, 3])
+                drive.append(['until', t])
+            elif r < 0.8:
+                drive.append(['burn', rng.choice(burns)])
+            else:
+                drive.append(['steps', rng.randint(1, 5)])
+    case['rt']['drive'] = drive
     return case
 
 
 def valid(case):
     rt = case.get('rt', {})
-    return rt.get('factor', 1) > 0 and all(m > 0 for m in rt.get('mults', [1])) and rt.get('tick', 0) >= 0
+    return rt.get('factor', 1) > 0 and all(m > 0 for m in rt.get('mults', [1])) and rt.get('tick', 0) >= 0 and _valid_drive(rt)
 
 
 def canon(log):
@@ -111,6 +132,89 @@ def canon(log):
             continue
         out.append(r)
     return c03.canon(out)
+
+
+class ObservedRT(TapRealtimeEnvironment):
+    """RealtimeEnvironment whose every step() is bracketed by harness observations, however it is driven
+    (step() by the harness, or run()/run(until=...) by the kernel)."""
+
+    obs = None
+
+    def step(self):
+        o = self.obs
+        if o is not None:
+            o.entry(self)
+        try:
+            super().step()
+        except BaseException as e:
+            if o is not None:
+                o.exit(self, e)
+            raise
+        if o is not None:
+            o.exit(self, None)
+
+
+class Observer:
+    def __init__(self, wall, real_start, t0, factor, strict):
+        self.wall, self.real_start, self.t0, self.factor, self.strict = wall, real_start, t0, factor, strict
+        self.viol, self.stats = [], {}
+        self.stop = False
+        self.too_slow = False
+        self.steps = 0
+        self.cur = None
+
+    def entry(self, env):
+        due = env.peek()
+        if due == float('inf'):
+            self.cur = None
+            return
+        self.wall.first_in_step = None
+        self.cur = (due, self.wall.t, len(env.log), self.real_start + (due - self.t0) * self.factor)
+
+    def exit(self, env, exc):
+        if self.cur is None or self.stop:
+            return
+        due, entry, n0, due_wall = self.cur
+        self.cur = None
+        self.steps += 1
+        wall, factor, strict = self.wall, self.factor, self.strict
+        raised = exc if (isinstance(exc, RuntimeError) and 'too slow' in str(exc).lower()) else None
+        first = wall.first_in_step if wall.first_in_step is not None else entry
+        lag_entry = entry - due_wall
+        lag_first = first - due_wall
+        if lag_entry == factor or lag_first == factor:
+            self.stats['lag_exactly_factor'] = 1
+        if raised is not None:
+            if not strict:
+                self.viol.append(('C20.3', 'non-strict RealtimeEnvironment raised %r' % (raised,)))
+            elif not (lag_first > factor):
+                self.viol.append(('C20.3', 'strict step raised "too slow" although the wall clock (%r at the first read) was '
+                                  'only %r past the due instant %r of the next occurrence (factor %r)' %
+                                  (first, lag_first, due_wall, factor)))
+            else:
+                self.stats['strict_error_expected'] = 1
+            self.too_slow = True
+            self.stop = True
+            return
+        if strict and lag_entry > factor:
+            self.viol.append(('C20.3', 'strict step did not raise although the wall clock at step entry (%r) was already %r '
+                              'past the due instant %r of the next occurrence (more than factor %r)' %
+                              (entry, lag_entry, due_wall, factor)))
+            self.stop = True
+            return
+        if not strict and lag_entry > factor:
+            self.stats['nonstrict_late'] = 1
+        for r in env.log[n0:]:
+            if r[0] == 'W':
+                if r[3] < due_wall - 1e-9 * max(1.0, abs(due_wall)):
+                    self.viol.append(('C20.2', 'occurrence %s due at simulated t=%r was processed at wall time %r, before '
+                                      'real_start %r + (t - %r) * %r = %r' %
+                                      (r[2], r[4], r[3], self.real_start, self.t0, factor, due_wall)))
+                    self.stop = True
+                    break
+            elif r[0] == 'O' and len(r) > 6 and r[6] == 'sync':
+                self.real_start = wall.last_returned if wall.last_returned is not None else wall.t
+                self.stats['sync'] = 1
 
 
 def run(case):
@@ -127,21 +231,19 @@ def run(case):
             break
         except StopSimulation:
             pass
-        except Exception:
+        except (Exception, HarnessAbort):
             pass
         n += 1
     ref_canon = canon(ref.env.log)
-    # real-time execution under the virtual wall clock
     wall = VirtualWallClock(100.0, rt.get('tick', 0.0), rt.get('mults', [1.0]))
     saved = (rt_mod.monotonic, rt_mod.sleep)
     rt_mod.monotonic, rt_mod.sleep = wall.monotonic, wall.sleep
     viol, stats = [], {}
     try:
-        env = TapRealtimeEnvironment(case.get('t0', 0), factor, strict)
+        t0 = case.get('t0', 0)
+        env = ObservedRT(t0, factor, strict)
         env.wallclock = wall
-        real_start = wall.last_returned
-        if real_start is None:
-            real_start = wall.t
+        real_start = wall.last_returned if wall.last_returned is not None else wall.t
         w = setup_world(case, env)
         w.wall = wall
         if rt.get('pre_burn'):
@@ -151,78 +253,61 @@ def run(case):
             env.sync()
             real_start = wall.last_returned
             stats['sync'] = 1
-        t0 = case.get('t0', 0)
         if t0:
             stats['initial_time_nonzero'] = 1
-        steps = 0
-        stopped_by_error = False
-        while steps < 4000:
-            due = env.peek()
-            if due == float('inf'):
+        obs = Observer(wall, real_start, t0, factor, strict)
+        env.obs = obs
+        plan = list(rt.get('drive') or []) + [['run']]
+        for it in plan:
+            if obs.stop or obs.steps >= 4000:
                 break
-            # a sync() inside the previous step re-based the reference start
-            entry = wall.t
-            wall.first_in_step = None
-            due_wall = real_start + (due - t0) * factor
-            n0 = len(env.log)
-            try:
-                env.step()
-                raised = None
-            except EmptySchedule:
-                break
-            except StopSimulation:
-                raised = None
-            except RuntimeError as e:
-                raised = e if 'too slow' in str(e).lower() else None
-            except Exception:
-                raised = None
-            steps += 1
-            first = wall.first_in_step if wall.first_in_step is not None else entry
-            lag_entry = entry - due_wall
-            lag_first = first - due_wall
-            if lag_entry == factor or lag_first == factor:
-                stats['lag_exactly_factor'] = 1
-            if raised is not None:
-                if not strict:
-                    viol.append(('C20.3', 'non-strict RealtimeEnvironment raised %r' % (raised,)))
-                elif not (lag_first > factor):
-                    viol.append(('C20.3', 'strict step raised "too slow" although the wall clock (%r at the first read) was only '
-                                 '%r past the due instant %r of the next occurrence (factor %r)' % (first, lag_first, due_wall, factor)))
-                else:
-                    stats['strict_error_expected'] = 1
-                stopped_by_error = True
-                break
+            if it[0] == 'burn':
+                wall.burn(it[1])          # wall time passing between two calls of the driver
+                stats['burn_between_calls'] = 1
+            elif it[0] == 'until':
+                if it[1] <= env.now:
+                    continue
+                stats['driven_by_run_until'] = 1
+                done = False
+                try:
+                    env.run(until=it[1])
+                    done = True
+                except RuntimeError as e:
+                    if 'too slow' in str(e).lower():
+                        break
+                except (Exception, HarnessAbort):
+                    pass
+                while not done and not obs.stop and obs.steps < 4000:
+                    # an exception escaped run(until): go on stepping until its stop event ends the call
+                    try:
+                        env.step()
+                    except (EmptySchedule, StopSimulation):
+                        break
+                    except (Exception, HarnessAbort):
+                        pass
             else:
-                if strict and lag_entry > factor:
-                    viol.append(('C20.3', 'strict step did not raise although the wall clock at step entry (%r) was already %r '
-                                 'past the due instant %r of the next occurrence (more than factor %r)' %
-                                 (entry, lag_entry, due_wall, factor)))
-                    break
-                if not strict and lag_entry > factor:
-                    stats['nonstrict_late'] = 1
-                # never ahead of the wall clock
-                for r in env.log[n0:]:
-                    if r[0] == 'W':
-                        if r[3] < due_wall - 1e-9 * max(1.0, abs(due_wall)):
-                            viol.append(('C20.2', 'occurrence %s due at simulated t=%r was processed at wall time %r, before '
-                                         'real_start %r + (t - %r) * %r = %r' % (r[2], r[4], r[3], real_start, t0, factor, due_wall)))
-                            break
-                    elif r[0] == 'O' and len(r) > 6 and r[6] == 'sync':
-                        real_start = wall.last_returned if wall.last_returned is not None else wall.t
-                        stats['sync'] = 1
-            if viol:
-                break
+                k = it[1] if it[0] == 'steps' else 1 << 30
+                while k > 0 and not obs.stop and obs.steps < 4000:
+                    k -= 1
+                    try:
+                        env.step()
+                    except EmptySchedule:
+                        k = 0
+                    except StopSimulation:
+                        pass
+                    except (Exception, HarnessAbort):
+                        pass
+        viol += obs.viol
+        stats.update(obs.stats)
+        steps = obs.steps
         if wall.tick:
             stats['tick'] = 1
         stats.update(wall.fired)
-        # same event sequence with the same values (up to the strict error)
         got = canon(env.log)
         if not viol:
-            if stopped_by_error:
-                cmp_ref = ref_canon[:len(got)]
-                # the last step did not run: compare only what was executed
-                if got != cmp_ref[:len(got)]:
-                    d = c03.first_diff(cmp_ref, got)
+            if obs.too_slow:
+                if got != ref_canon[:len(got)]:
+                    d = c03.first_diff(ref_canon[:len(got)], got)
                     viol.append(('C20.1', 'real-time execution diverges from Environment at canonical record %r: %r vs %r' % d))
             else:
                 d = c03.first_diff(ref_canon, got)
@@ -231,7 +316,7 @@ def run(case):
                                  'RealtimeEnvironment %r' % d))
     finally:
         rt_mod.monotonic, rt_mod.sleep = saved
-    nontrivial = any(stats.get(k) for k in ('burn', 'sleep_early', 'sleep_late', 'tick', 'sync', 'pre_burn'))
+    nontrivial = any(stats.get(k) for k in ('burn', 'sleep_early', 'sleep_late', 'tick', 'sync', 'pre_burn', 'burn_between_calls'))
     res = {'viol': viol, 'digest': digest_of((env.log, san(rt))), 'nontrivial': nontrivial, 'stats': stats,
            'simtime': float(env.now) - float(case.get('t0', 0)), 'steps': steps + n}
     if case.get('_excerpt'):
